@@ -1,5 +1,6 @@
 SPECIFICATION TraceSpec
 CONSTANTS
   Nodes = {"a", "b", "c"}
+  SnapCarriesLP = TRUE
 POSTCONDITION Post
 CHECK_DEADLOCK FALSE
